@@ -15,6 +15,8 @@ one-directional wherever docs/web/tfel-check.md is silent (DESIGN.md 3.3):
      Absolute only (documented: "a difference of 100Pa is allowed"): all pairs finite and
                   within  =>  SUCCESS
      exit status != 0  <=>  at least one comparison FAILED
+     metamorphic: each comparison is repeated in the same .check file with both data columns negated and must
+                  get the same verdict (every type is a function of |a-b|, |a|, |b|); key C51.<type>.sign_flip_verdict
   sub "interp"     the same with `@Interpolation Linear|Spline|LocalSpline using 1` and a
      reference which is an affine function of the abscissa (every interpolation
      scheme reproduces it up to round-off), result abscissae inside the reference's range
@@ -234,10 +236,10 @@ def check_pointwise(case):
             classes.append("identical" + (".negative" if an["negative"] else ""))
             if not v:
                 key = "C51.%s.identical_failed" % k
-                if c["type"] == "Mixed" and an["negative"]:
-                    key = "C51.mixed.identical_negative_reference_failed"
-                elif sticky:
+                if sticky:
                     key = "C51.shared_testtype.failed_after_failure"
+                elif c["type"] == "Mixed" and an["negative"]:
+                    key = "C51.mixed.identical_negative_reference_failed"
                 fails.append((key, "FAILED although %s; %s" % (
                     "the file is compared with itself" if c.get("self") else "both columns are identical", where)))
             continue
@@ -353,15 +355,18 @@ def check_area(case):
     far = all(area > 10 * Fraction(val(c["prec"])) * n for n in norms)
     if far:
         classes.append("far_outside" + (".negative" if max(a) < 0 or max(b) < 0 else ""))
-        if v:
-            key = "C51.area.outside_success"
-            if max(a) <= 0 or max(b) <= 0:
-                key = "C51.area.nonpositive_reference_success"
-            return Result(False, key, "SUCCESS although the area between the curves is %g (smallest normalised value %g) %s" % (
-                float(area), float(min(area / n for n in norms)), where))
-    if (rc != 0) != (not v):
-        return Result(False, "C51.exit_status", "exit status %d but comparison %s for %s" % (rc, v, txt))
-    return Result(True, nontrivial=far, classes=classes, sample={"check": txt, "verdict": v})
+        for neg, vv in ((False, v), (True, verdicts[1])):
+            if vv:
+                key = "C51.area.outside_success"
+                if (min(a) >= 0 or min(b) >= 0) if neg else (max(a) <= 0 or max(b) <= 0):
+                    key = "C51.area.nonpositive_reference_success"
+                return Result(False, key, "SUCCESS although the area between the curves%s is %g (smallest normalised value %g) %s" % (
+                    " (both negated)" if neg else "", float(area), float(min(area / n for n in norms)), where))
+    if flip is not None:
+        return flip
+    if (rc != 0) != (not (v and verdicts[1])):
+        return Result(False, "C51.exit_status", "exit status %d but comparisons %s for %s" % (rc, verdicts, txt))
+    return Result(True, nontrivial=far, classes=classes + ["sign_flip"], sample={"check": txt, "verdicts": verdicts})
 
 
 # ------------------------------------------------------------------ generators
@@ -374,7 +379,7 @@ def strategies():
         dyadic, st.sampled_from([0., 1., -1., 100., -2.5e8]))
     prec_s = st.one_of(st.builds(lambda m, e: m * 10. ** e, st.sampled_from([1., 2., 5., 1.5]), st.integers(-14, 2)),
                        st.integers(1, 2 ** 16).map(lambda m: m / 2. ** 12))
-    ROWCLS = ["identical", "within", "at", "ulp", "just_outside", "far", "flip", "zero_a", "zero_b", "zero_both",
+    ROWCLS = ["identical", "within", "at", "ulp", "just_outside", "far", "flip", "min_straddle", "opp", "zero_a", "zero_b", "zero_both",
               "nan_a", "nan_b", "nan_both", "inf_a", "inf_b", "inf_both", "inf_opp"]
 
     def make_row(typ, prec, prec2, cls, b, theta, sgn, k):
@@ -398,6 +403,15 @@ def strategies():
             return b + sgn * (tol + 1e-3 * abs(b) + 1e-12) * 10. ** (1 + 5 * theta), b
         if cls == "flip":
             return -b, b
+        if cls == "min_straddle":
+            # same sign, |a| > |b|, relative error (min normalisation) just above prec but below prec under a
+            # normalisation by the larger magnitude: |a-b|/|b| = prec (1+eta), eta <= prec/(1-prec)
+            eta = 1e-12 + theta * 0.9 * (prec / (1 - prec) if prec < 0.5 else 1.)
+            return b * (1 + prec * (1 + eta)), b
+        if cls == "opp":
+            # opposite signs: |a-b|/min(|a|,|b|) = 1 + max/min straddles prec when prec > 2
+            r = (prec - 1) * (1 + sgn * (1e-9 + 0.05 * theta)) if prec > 2 else 1 + 3 * theta
+            return -b * r, b
         if cls == "zero_a":
             return 0., b
         if cls == "zero_b":
@@ -418,14 +432,14 @@ def strategies():
             prec = draw(st.integers(1, 2 ** 16).map(lambda m: m / 2. ** 12))
         n = draw(st.integers(1, 12 if mode != "lengths" else 6))
         sign = draw(st.sampled_from(["any", "any", "negative", "positive"]))
-        rowcls = ROWCLS if draw(st.integers(0, 2)) == 0 else ROWCLS[:10]
+        rowcls = ROWCLS if draw(st.integers(0, 2)) == 0 else ROWCLS[:12]
         rows = []
         bad = draw(st.integers(0, n - 1))
         for i in range(n):
             if mode in ("self", "identical"):
                 cls = "identical"
             elif mode == "one_bad":  # a single row out of tolerance, on one side: one-sided / sign errors show
-                cls = draw(st.sampled_from(["just_outside", "far", "far", "flip"])) if i == bad else draw(
+                cls = draw(st.sampled_from(["just_outside", "far", "far", "flip", "min_straddle", "min_straddle", "opp"])) if i == bad else draw(
                     st.sampled_from(["identical", "within"]))
             elif mode == "good":
                 cls = draw(st.sampled_from(["identical", "within", "at", "ulp", "zero_both"]))
